@@ -11,6 +11,8 @@ from checks import unitscheck
 UNITS_MENUS = {
     'quick': [('cube', ['tA', 'tA3', 'tA2', 'ka', 'p_ka_3', 'p_ka_2', 'm_ka_ka'], 6),
               ('noref', ['tA', 'tM', 'tMpA', 'p', 'q', 'ppa', 'qpa', 'd_ppa_qpa', 'm_ppa_a'], 8),
+              ('noref3', ['tA', 'tM', 'tMpA', 'p', 'ka', 'ppkad', 'ppa', 'd_ppkad_ppa', 'd_ppa_ppkad'], 8),
+              ('ghost', ['tA', 'tB', 'tAB', 'ka', 'cb', 'kacb_dup', 'm_ka_cb', 'm_b_ka'], 7),
               ('exist', ['tA', 'tB', 'tAB', 'tA2', 'tBi', 'ka', 'cb', 'm_ka_b', 'm_b_ka', 'm_ka_ka', 'm_ka_cb',
                          'm_b_bi', 'd_ka_b', 'd_a2_ka', 'p_ka_2', 'p_ka_m1', 'p_ka_3', 'p_a_0'], 5)],
     'thorough': [('exist', ['tA', 'tB', 'tAB', 'tA2', 'tBi', 'tApB', 'ka', 'cb', 'ha', 'm_ka_b', 'm_b_ka', 'm_ka_ka',
